@@ -92,9 +92,6 @@ def finish(check, seed=0, checker_cmd=''):
     for name, fired in check.controls:
         if not fired:
             problems.append('liveness control did not fire: ' + name)
-    if problems:
-        raise AnalysisError('; '.join(problems))
-
     known = [k for k in load_known() if k.get('property') == pid]
     failed = [o for o in check.obligations if not o.ok]
     known_hits, new = [], []
@@ -105,6 +102,9 @@ def finish(check, seed=0, checker_cmd=''):
                 hit = k
                 break
         (known_hits if hit else new).append((o, hit))
+    if problems and not new:
+        # a vacuous / starved rule is an analysis error, unless a refuted obligation already explains it
+        raise AnalysisError('; '.join(problems))
     n = len(check.obligations)
     nd = n - len(failed)
     status = 1 if new else 0
